@@ -208,7 +208,7 @@ class EnumGen:
             items.append('detailed_message = %s' % rust_str(v.det))
         out = []
         # props groups: extra['prop_groups'] not modelled; render as given split sizes
-        groups = getattr(v, '_prop_groups', None)
+        groups = self.e.extra.get('prop_groups', {}).get(v.ident)
         props = list(v.props)
         if props:
             if not groups:
@@ -717,7 +717,31 @@ class EnumGen:
                 '}']
         return out, [('disc', 'op_disc')]
 
-    FEATS = {'repr': 'feat_repr', 'disc': 'feat_disc', 'parse': 'feat_parse', 'names': 'feat_names', 'roundtrip': 'feat_roundtrip', 'iter': 'feat_iter',
+    def feat_msg(self):
+        sp = self.sp
+        out = ['fn optstr(o: Option<&\'static str>) -> String { match o { Some(s) => hex(s.as_bytes()), None => "-".to_string() } }',
+               'fn op_msg(a: &[&str]) -> String {',
+               '    use %s::EnumMessage;' % sp,
+               '    let v = match mk(a[1], 1, "") { Some(v) => v, None => return "bad-op".to_string() };',
+               '    let ser: Vec<String> = v.get_serializations().iter().map(|s| hex(s.as_bytes())).collect();',
+               '    format!("message={} detailed={} doc={} ser={}", optstr(v.get_message()), optstr(v.get_detailed_message()), optstr(v.get_documentation()), ser.join(","))',
+               '}']
+        return out, [('msg', 'op_msg')]
+
+    def feat_prop(self):
+        sp = self.sp
+        out = ['fn op_prop(a: &[&str]) -> String {',
+               '    use %s::EnumProperty;' % sp,
+               '    let v = match mk(a[1], 1, "") { Some(v) => v, None => return "bad-op".to_string() };',
+               '    let key = unhex(a[2]);',
+               '    let s = match v.get_str(&key) { Some(s) => hex(s.as_bytes()), None => "-".to_string() };',
+               '    let i = match v.get_int(&key) { Some(i) => format!("{}", i), None => "-".to_string() };',
+               '    let b = match v.get_bool(&key) { Some(true) => "1", Some(false) => "0", None => "-" };',
+               '    format!("str={} int={} bool={}", s, i, b)',
+               '}']
+        return out, [('prop', 'op_prop')]
+
+    FEATS = {'msg': 'feat_msg', 'prop': 'feat_prop', 'repr': 'feat_repr', 'disc': 'feat_disc', 'parse': 'feat_parse', 'names': 'feat_names', 'roundtrip': 'feat_roundtrip', 'iter': 'feat_iter',
              'count': 'feat_count', 'vnames': 'feat_vnames', 'varray': 'feat_varray'}
 
     def render(self):
@@ -727,7 +751,7 @@ class EnumGen:
             pass
         out += self.enum_item(tuple(e.extra.get('base_derives', ('Debug', 'PartialEq', 'Clone'))))
         out += self.fn_ident_of()
-        if any(f in e.feats for f in ('parse', 'names', 'roundtrip', 'mk', 'iter', 'repr', 'disc')):
+        if any(f in e.feats for f in ('parse', 'names', 'roundtrip', 'mk', 'iter', 'repr', 'disc', 'msg', 'prop')):
             out += self.fn_mk()
             out += self.fn_payload()
         ops = []
